@@ -351,7 +351,7 @@ func expiryTest(r *Run, v ssa.Value) (call *ssa.Call, neg bool, ok bool) {
 		rt = p.Elem()
 	}
 	n, isNamed := rt.(*types.Named)
-	if !isNamed || (n.Obj().Name() != r.M.ItemT[0] && n.Obj().Name() != r.M.ItemT[1]) {
+	if !isNamed || !r.M.IsItemRecv(n.Obj().Name()) {
 		return nil, false, false
 	}
 	if b, isB := cal.Signature.Results().At(0).Type().(*types.Basic); cal.Signature.Results().Len() != 1 || !isB || b.Kind() != types.Bool {
